@@ -65,7 +65,9 @@ def run_demo(wt, cmds, dest):
 
 def main():
     prop, k = sys.argv[1], sys.argv[2]
-    wt = f"/tmp/wt-{prop}"
+    prefix = os.environ.get("WT_PREFIX", "/tmp/wt-")
+    offset = int(os.environ.get("ID_OFFSET", "0"))
+    wt = f"{prefix}{prop}"
     head = subprocess.run("git -C /repo rev-parse HEAD", shell=True, stdout=subprocess.PIPE, text=True).stdout.strip()
     sh("git checkout -q -- . ; git checkout -q --detach " + head, wt)
     patch = os.path.join(wt, "mutants", str(k), "patch.diff")
@@ -95,7 +97,7 @@ def main():
     report["confirmed"] = ok
     print(("CONFIRMED" if ok else "NOT-CONFIRMED"), prop, k, f"demo clean={rc0} build={rcb} suite_fail={sorted(failed)} demo patched={rc1}")
     if ok:
-        dst = f"/verif/seeded/{prop}-{k}"
+        dst = f"/verif/seeded/{prop}-{int(k) + offset}"
         os.makedirs(dst, exist_ok=True)
         for f in os.listdir(os.path.join(wt, "mutants", str(k))):
             if f.endswith((".diff", ".go", ".sh", ".md")):
